@@ -10,6 +10,7 @@ Line protocol of the C14 model (sums are exact integers: `M := Int`).
   C14 whole  <req> <parts>   finalize (collect all documents)
   C14 merged <req> <parts>   finalize (mergeFruits (parts.map collectSeg))   (with segment truncation)
   C14 mergedtrim <req> <parts>   top-level composite only: finalize (fold compMergeFruits (parts.map collectSegComposite)) — per-segment eviction and merge-time trim above 2*size
+  C14 mergedevict <req> <parts>   finalize (fold merge (parts.map collectSegEvict)) — eviction at every composite node, no terms cut
   C14 keyasc <req> <parts>   top-level terms, _key ascending or descending, min_doc_count ≤ 1, no terms below: `same` when the truncated
                              merged segments show the buckets and sum_other_doc_count of evalAggPV, `diff …` otherwise, `n/a` when not applicable
   C14 limit  <n> <req> <parts>   finalizeGuarded n on the merged tree: `ok <res>` | `err <count>`
@@ -182,6 +183,12 @@ def handle : List String → String
       let x : Inter Int r := (parts.map (collectSegComposite (M := Int) srcs size after sub)).foldl
         (compMergeFruits (entryMerge (merge (M := Int) sub)) size after) (empty r)
       showRes r (finalize r x)
+    | _, _ => "bad-op"
+  | ["mergedevict", rq, ps] =>
+    -- any request: composite eviction at every composite node of every segment fruit (C14_composite_eviction_invisible_anywhere)
+    match parseReqStr rq, parseParts ps with
+    | some r, some parts =>
+      showRes r (finalize r ((parts.map (collectSegEvict (M := Int) r)).foldl (merge r) (empty r)))
     | _, _ => "bad-op"
   | ["keyasc", rq, ps] =>
     -- C14_terms_key_asc_exact_under_truncation / C14_terms_key_desc_exact_under_truncation: when the hypotheses hold, the truncated merged
